@@ -457,6 +457,10 @@ func (rt *runtime) convertCallParameter(v Value, t reflect.Type) (reflect.Value,
 		if o := v.object(); o != nil {
 			if lv := o.get(propertyLength); lv.IsNumber() {
 				l := lv.number().int64
+				if l < 0 || l > math.MaxInt32 {
+					// the length is under the control of the script
+					return reflect.Zero(t), fmt.Errorf("invalid length %d for %s", l, t)
+				}
 
 				s := reflect.MakeSlice(t, int(l), int(l))
 
